@@ -108,7 +108,7 @@ def r2(c):
             continue
         c.ob('deny-reach/%s' % cs.callee, not eff and not cs.is_(HGET, HITER, LOCK, GET_REPLY, EXECUTE, INTO_BC, WIRE_WRITE, REPLY_ERR_G),
              'call reachable from the Deny edge is effect-free', '%s has effects %s' % (cs.callee, sorted(eff)), cs.loc())
-    c.floor('calls reachable from Deny examined', n, 3)
+    c.floor('calls reachable from Deny examined', n, 2)
     rep = one(replies, 'reply_with_error reachable from the Deny edge')
     # exception code and function
     ex = q.agg_variant_of(b, rep.args[4])
@@ -118,7 +118,12 @@ def r2(c):
     parse = one(b.calls(PARSE), 'Request::parse')
     okf = f.kind == 'call' and f.cs.is_('rodbus::server::request::Request::get_function') and \
         q.sem(b, f.cs.args[0]).kind == 'call' and q.sem(b, f.cs.args[0]).cs is parse
-    c.ob('deny-reply/function', okf, "deny reply names the request's own function (request.get_function())",
+    if not okf:
+        # ... or the function code the request was parsed as (the argument of Request::parse: R01.2 ties each parse arm
+        # to the request kind of that code, so both name the same function)
+        pf = q.sem(b, parse.args[0])
+        okf = f.kind == 'call' and pf.kind == 'call' and f.cs is pf.cs and f.proj == pf.proj
+    c.ob('deny-reply/function', okf, "deny reply names the request's own function (request.get_function(), or the code it was parsed as)",
          'function operand origin %r' % f, rep.loc())
     h = q.sem(b, rep.args[2])
     c.ob('deny-reply/header', q.sem_is_name(b, h, 'frame') and any('header' in p for p in h.proj),
@@ -256,7 +261,8 @@ def r5(c):
         ex = q.exits(b)
         ok = len(ex) >= 1 and all(x['kind'] == 'agg' and x['adt'] == AUTH and x['variant'] == 'Deny' for x in ex)
         c.ob('default/%s' % meth, ok, 'provided AuthorizationHandler::%s returns Deny' % meth, str([(x['kind'], x.get('variant')) for x in ex]), loc_of(b))
-        ro = P.fn('<rodbus::server::handler::ReadOnlyAuthorizationHandler as rodbus::server::handler::AuthorizationHandler>::' + meth)
+        rop = '<rodbus::server::handler::ReadOnlyAuthorizationHandler as rodbus::server::handler::AuthorizationHandler>::' + meth
+        ro = P.fn(rop) if P.has(rop) else b        # not overridden: the provided method (checked above) applies
         ex = q.exits(ro)
         want = 'Allow' if v in READS else 'Deny'
         ok = len(ex) >= 1 and all(x['kind'] == 'agg' and x['adt'] == AUTH and x['variant'] == want for x in ex)
